@@ -388,6 +388,97 @@ Section Main.
       - intros n vals L In. now apply agree_all.
     Qed.
 
+    (* ------------------------------------ C03_equiv for a partially built model *)
+    (* the part of the workbook the saved model knows: the built nodes, and the
+       range nodes all of whose members are built *)
+    Definition region (n : nat) : Prop :=
+      st_built s n = true \/
+      (n < N /\ wb_range W n = true /\ forall d, In d (wb_deps W n) -> st_built s d = true).
+
+    (* post-load operations inside the saved model *)
+    Definition post_in (o : gop) : Prop :=
+      match o with
+      | Evaluate n => region n
+      | Build n => region n
+      | SetValue a v => saved M a = true /\ wb_input W a = true /\ scalar_exact v = true
+      end.
+
+    Lemma region_lt n : region n -> n < N.
+    Proof. intros [B|(L & _)]; auto. now apply (inv_lt _ _ _ I). Qed.
+
+    Lemma region_deps n d : region n -> In d (wb_deps W n) -> region d.
+    Proof. intros [B|(_ & _ & H)] Hd; left; auto. now apply (inv_deps _ _ _ I n d). Qed.
+
+    Lemma sem_same n : n < N ->
+      wb_range W n = true \/ (saved M n = true /\ wb_input W n = false) ->
+      forall vals, pm_sem M n vals = sem' n vals.
+    Proof.
+      intros L H vals. unfold Persist.pm_sem, sem', sem_of.
+      rewrite <- (ok_range M OK) by (rewrite <- NG; auto).
+      destruct H as [R|[S In]]; [now rewrite R|].
+      destruct (at_formula n S In) as (_ & _ & _ & C). rewrite C.
+      unfold saved in S. apply andb_prop in S. destruct S as [_ R]. apply negb_true_iff in R.
+      now rewrite R.
+    Qed.
+
+    Lemma spec_region inp inp' :
+      (forall a, saved M a = true -> wb_input W a = true -> inp a = inp' a) ->
+      forall n, region n -> spec W (pm_sem M) inp n = spec W' sem' inp' n.
+    Proof.
+      intros E. induction n as [n IH] using lt_wf_ind. intros Rn.
+      pose proof (region_lt n Rn) as L.
+      assert (Deps: map (spec W (pm_sem M) inp) (wb_deps W n) = map (spec W' sem' inp') (wb_deps W n)).
+      { apply map_ext_in. intros d Hd. apply IH; [now apply (deps_lt W WF n d L)|now apply (region_deps n)]. }
+      rewrite (spec_unfold W (pm_sem M) WF) by auto.
+      rewrite (spec_unfold W' sem' wf_loaded) by (change (wb_n W') with (g_n G); rewrite <- NG; auto).
+      destruct (kinds n L) as [R|[[S In]|[[S In]|[R B]]]].
+      - destruct (at_range n L R) as (A & B & C). rewrite A, B, C, Deps. apply sem_same; auto.
+      - destruct (at_input n S In) as (_ & A & _). rewrite A, In. now apply E.
+      - destruct (at_formula n S In) as (_ & A & B & C). rewrite A, B, In, Deps. apply sem_same; auto.
+      - destruct Rn as [B'|(_ & R' & _)]; congruence.
+    Qed.
+
+    Lemma run_spec_region : forall h inp inp',
+      (forall a, saved M a = true -> wb_input W a = true -> inp a = inp' a) ->
+      Forall post_in h -> run_spec W (pm_sem M) inp h = run_spec W' sem' inp' h.
+    Proof.
+      induction h as [|o h IH]; intros inp inp' E F; cbn [run_spec]; auto.
+      inversion F as [|? ? Ho Fh]; subst. f_equal.
+      - destruct o; auto. now apply spec_region.
+      - apply IH; auto. destruct o as [n|a v|n]; cbn [written]; auto.
+        intros b Sb Ib. unfold upd. destruct (Nat.eqb b a); auto.
+    Qed.
+
+    Lemma equiv_region h : Forall post_in h -> ok_history W (pm_sem M) (ok_op W) s h ->
+      snd (run W' sem' s' h) = snd (run W (pm_sem M) s h).
+    Proof.
+      intros F OKh.
+      pose proof (sem_of_nonblank W (wb_range W) (pm_code M) CNB) as NBW.
+      destruct loaded_state as (I' & A & B & C).
+      destruct (run_coherent W (pm_sem M) WF NBW SO h s (st_cache s) I) as [T1 _]; auto.
+      { intros m _ _. reflexivity. }
+      destruct (run_coherent W' sem' wf_loaded nb_loaded so_loaded h s' (st_cache s') I') as [T2 _]; auto.
+      { intros m _ _. reflexivity. }
+      { (* the input entries of the loaded model are Excel scalars *)
+        intros m L In. rewrite C by auto. change (wb_n W') with (g_n G) in L. rewrite <- NG in L.
+        destruct (kinds m L) as [R|[[S In0]|[[S In0]|[R Bm]]]].
+        - destruct (at_range m L R) as (E & _). congruence.
+        - destruct (at_input m S In0) as (_ & _ & _ & E). rewrite E. now apply EX.
+        - destruct (at_formula m S In0) as (_ & E & _). congruence.
+        - assert (E: imp_code l m = None).
+          { unfold imp_code, l. rewrite saved_lookup by auto. unfold saved. now rewrite Bm. }
+          unfold W', imp_wb. cbn [wb_inp0]. unfold l. rewrite saved_lookup by auto.
+          unfold saved. rewrite Bm. reflexivity. }
+      { apply (nodata_history_ok W' sem' wf_loaded nb_loaded so_loaded (fun a => saved M a = true)); auto.
+        eapply Forall_impl; [|exact F]. intros o Ho. destruct o as [n|a v|n]; cbn in *.
+        - change (wb_n W') with (g_n G). rewrite <- NG. now apply region_lt.
+        - destruct Ho as (Sa & Ia & Ev). repeat split; auto.
+          now destruct (at_input a Sa Ia) as (_ & E & _).
+        - change (wb_n W') with (g_n G). rewrite <- NG. now apply region_lt. }
+      rewrite T1, T2. symmetry. apply run_spec_region; auto.
+      intros a Sa Ia. destruct (at_input a Sa Ia) as (_ & E1 & _ & E2). now rewrite C, E2.
+    Qed.
+
     (* --------------------------------------- saving the loaded model again *)
     Lemma cell_value_loaded n : saved M n = true -> cell_value M' n = cell_value M n.
     Proof.
@@ -558,6 +649,23 @@ Section Final.
         * now apply sem_of_nonblank.
         * intros m _ _. reflexivity.
         * apply post_history_ok; auto. now apply sem_of_nonblank.
+  Qed.
+
+  (* a model saved before every cell was built: histories inside the saved part
+     that are admissible for the original (C01's ok_history) *)
+  Theorem equiv_region_roundtrip M :
+    pm_ok G cdeps M -> wf (pm_wb M) -> code_nonblank csem rsem ->
+    Inv (pm_wb M) (sem M) (pm_state M) -> no_eq_text M ->
+    stored_ok (pm_wb M) (sem M) ->
+    inputs_exact (pm_wb M) (st_cache (pm_state M)) ->
+    exists M', roundtrip M = Ok M' /\
+      forall h, Forall (post_in M) h ->
+        ok_history (pm_wb M) (sem M) (ok_op (pm_wb M)) (pm_state M) h ->
+        snd (run (pm_wb M') (sem M') (pm_state M') h) = snd (run (pm_wb M) (sem M) (pm_state M) h).
+  Proof.
+    intros OK WF CNB I NE SO EX. eexists. split.
+    - apply from_text_ok; eauto.
+    - intros h F OKh. now apply (equiv_region G cdeps csem rsem M).
   Qed.
 
   Theorem idempotent M :
